@@ -35,6 +35,13 @@ package main
 //   exit-fail:<class> events=none|some rereqs=K      (K = most re-requests seen for one ended vBucket)
 // with the additional class reopen-gave-up (reopenStream's panic after its 5 attempts, 1 s apart).
 //
+// One optional trailing field of the group `file-partial` (never together with end=/reref=):
+//   members=K
+// the node has K*(hi+1) vBuckets and the child runs as static member 1 of K, so its assignment is still 0..hi
+// while the bucket (and the GET_ALL_VB_SEQNOS answer, and `high=`/`flog=`) covers 0..K*(hi+1)-1: a metadata
+// file may then name vBuckets that exist on the node but are not assigned.  With the file back end `docs=` is the
+// content of the metadata file AS IT IS: any vBucket ids, assigned or not, also beyond the node's vBucket count.
+//
 // The same child entry serves stream c14w (`keydot`, harness/l2_keys.go).
 
 import (
@@ -118,6 +125,11 @@ func stChild(op, addr string) {
 		cfg.Dcp.Mode = config.DcpModeFinite
 	}
 	cfg.Checkpoint.AutoReset = kv["reset"]
+	if m, err := strconv.Atoi(kv["members"]); err == nil && m > 1 {
+		// static member 1 of m: the first chunk of the node's vBuckets (the node has m*(hi+1) of them)
+		cfg.Dcp.Group.Membership.MemberNumber = 1
+		cfg.Dcp.Group.Membership.TotalMembers = m
+	}
 	var mu sync.Mutex
 	events := 0
 	listener := func(ctx *models.ListenerContext) {
@@ -234,7 +246,7 @@ func stCheckpointJSON(d ckDoc) []byte {
 // stRun executes one st-case line
 func stRun(op string, workDir string) (obs string, tags []string) {
 	t := strings.Fields(op)
-	if (len(t) != 19 && len(t) != 21) || t[0] != "st-case" {
+	if (len(t) != 19 && len(t) != 20 && len(t) != 21) || t[0] != "st-case" {
 		return "bad-op", []string{"bad-op"}
 	}
 	kv := ckKV(t[2:])
@@ -279,13 +291,21 @@ func stRun(op string, workDir string) (obs string, tags []string) {
 	if e1 != nil || e2 != nil || !ok1 || !ok2 || !ok3 || !ok4 || !ok5 || !ok6 || lo != 0 || hi < 0 || hi > 63 {
 		return "bad-op", []string{"bad-op"}
 	}
-	n := hi + 1
-	node := sim.New(sim.Options{NumVb: n})
+	n := hi + 1 // assigned vBuckets 0..hi
+	nodeVbs := n
+	if len(t) == 20 { // members=K: the node has K*(hi+1) vBuckets, the child is static member 1 of K
+		m, err := strconv.Atoi(kv["members"])
+		if err != nil || m < 2 || m > 8 || kv["memb"] != "static" || !strings.HasPrefix(t[19], "members=") {
+			return "bad-op", []string{"bad-op"}
+		}
+		nodeVbs = n * m
+	}
+	node := sim.New(sim.Options{NumVb: nodeVbs})
 	if err := node.Start(); err != nil {
 		panic(err)
 	}
 	defer node.Close()
-	for vb := uint16(0); int(vb) < n; vb++ {
+	for vb := uint16(0); int(vb) < nodeVbs; vb++ {
 		node.SetHighSeqno(vb, high[vb])
 		node.SetFailoverLog(vb, []sim.FailoverEntry{{UUID: flog[vb], Seq: 0}})
 	}
@@ -321,7 +341,7 @@ func stRun(op string, workDir string) (obs string, tags []string) {
 	var pushWg sync.WaitGroup
 	// the partial GET_ALL_VB_SEQNOS answer: (vb uint16, seqno uint64) per vBucket that is not left out
 	var partialSeqnos []byte
-	for vb := 0; vb < n; vb++ {
+	for vb := 0; vb < nodeVbs; vb++ {
 		if !seqMissing[uint16(vb)] {
 			partialSeqnos = binary.BigEndian.AppendUint16(partialSeqnos, uint16(vb))
 			partialSeqnos = binary.BigEndian.AppendUint64(partialSeqnos, high[uint16(vb)])
@@ -531,6 +551,7 @@ type stSpec struct {
 	delay, push                         bool
 	end                                 string // "" or VBS:STATUS:PHASE
 	reRef                               map[uint16]bool
+	members                             int // 0/1: the node has n vBuckets; K > 1: K*n, static member 1 of K
 }
 
 func (s *stSpec) op(f7 string) string {
@@ -545,6 +566,8 @@ func (s *stSpec) op(f7 string) string {
 		ckVbsStr(s.loadErr), s.seq, f7, ckVbsStr(s.flogErr), ckVbsStr(s.openErr), b(s.delay), b(s.push))
 	if s.end != "" {
 		line += fmt.Sprintf(" end=%s reref=%s", s.end, ckVbsStr(s.reRef))
+	} else if s.members > 1 {
+		line += fmt.Sprintf(" members=%d", s.members)
 	}
 	return line
 }
@@ -950,6 +973,159 @@ func runC15W(c *Ctx) {
 			s.end = fmt.Sprintf("%d:%s:%s", g.vb, g.status, g.phase)
 			s.reRef = map[uint16]bool{g.vb: true}
 			add(s.op(f7), "reopen-refused", "end-"+g.status, "phase-"+g.phase)
+		}
+		// K. the FILE back end with its file present: fileMetadata.Load returns the file's map AS IT IS (the assignment is
+		// only consulted when the file is missing).  (a) the file names a proper subset of the assigned vBuckets (a group
+		// resized between two runs): openStream's "not found on offset map" must terminate the process - the only back-stop
+		// against a session on a partial basis; (b) every assigned vBucket + entries OUTSIDE the assignment: those are still
+		// range-checked (beyond the node's vBucket count the seqno answer has no entry = 0; inside it, the true high seqno);
+		// (c) only unassigned entries; (d) combined with a refused stream request / sibling traffic
+		fileSpec := func(n, members int) *stSpec {
+			s := stBase(name("fpart"), n, r)
+			s.meta, s.file = "file", "set"
+			stored(s, true)
+			if members > 1 {
+				s.members = members
+				for vb := n; vb < n*members; vb++ {
+					s.high[uint16(vb)] = uint64(10 + r.Intn(1000))
+					s.flog[uint16(vb)] = uint64(1000 + r.Intn(100000))
+				}
+			}
+			return s
+		}
+		fp := func(s *stSpec, tags ...string) {
+			for i := range tags {
+				tags[i] = "file-partial." + tags[i]
+			}
+			add(s.op(f7), append([]string{"file-partial"}, tags...)...)
+		}
+		{
+			// (a) subsets
+			s := fileSpec(3, 1)
+			delete(s.docs, 1)
+			fp(s, "subset", "one-missing")
+			s = fileSpec(5, 1)
+			delete(s.docs, 1)
+			delete(s.docs, 3)
+			delete(s.docs, 4)
+			fp(s, "subset", "several-missing")
+			s = fileSpec(4, 1)
+			for _, vb := range []uint16{0, 1, 3} {
+				delete(s.docs, vb)
+			}
+			fp(s, "subset", "only-one-stored")
+			// (b) every assigned vBucket + entries outside the assignment
+			s = fileSpec(3, 1)
+			s.docs[3] = ckDoc{u: 5} // beyond the node's vBuckets, seqno 0: 0 > 0 is false, the session runs
+			fp(s, "extra", "extra-zero-beyond-node")
+			s = fileSpec(3, 1)
+			s.docs[7] = ckDoc{u: 5, s: 1, ss: 1, se: 1} // no entry in the seqno answer = 0: any positive seqno is "ahead"
+			fp(s, "extra", "extra-positive-beyond-node")
+			s = fileSpec(2, 2) // the node has 0..3, this member owns 0..1; the file was written by a 1/1 run
+			for _, vb := range []uint16{2, 3} {
+				s.docs[vb] = ckDoc{u: s.flog[vb], s: 1 + uint64(r.Intn(int(s.high[vb]))), ss: 1, se: s.high[vb] + 5}
+			}
+			s.push = true
+			fp(s, "extra", "extra-below-inside-node")
+			s = fileSpec(2, 2)
+			s.docs[2] = ckDoc{u: s.flog[2], s: 1, ss: 1, se: 9}
+			s.docs[3] = ckDoc{u: s.flog[3], s: s.high[3] + 1, ss: 1, se: s.high[3] + 1}
+			fp(s, "extra", "extra-ahead-inside-node")
+			// (c) only entries outside the assignment; auto-reset latest must NOT reset (exist = true)
+			s = fileSpec(2, 1)
+			s.docs = map[uint16]ckDoc{5: {u: 1}}
+			s.reset = "latest"
+			s.flogErr[0] = true // not consulted either
+			fp(s, "only-unassigned", "only-unassigned-zero")
+			s = fileSpec(2, 1)
+			s.docs = map[uint16]ckDoc{5: {u: 1, s: 3, ss: 1, se: 3}, 2: {u: 1}}
+			fp(s, "only-unassigned", "only-unassigned-positive")
+			// (d) combinations
+			s = fileSpec(4, 1) // one missing, another one refused late, traffic on the rest: the local failure is prompt
+			delete(s.docs, 2)
+			s.openErr[0] = true
+			s.delay, s.push = true, true
+			fp(s, "subset", "combined", "missing+openerr-late+push")
+			s = fileSpec(3, 1) // complete + harmless extra entry, one stream request refused
+			s.docs[9] = ckDoc{u: 2}
+			s.openErr[1] = true
+			fp(s, "extra", "combined", "extra-zero+openerr")
+			s = fileSpec(3, 1) // complete + harmless extra entry, traffic
+			s.docs[4] = ckDoc{u: 2}
+			s.push = true
+			s.mode = "fin"
+			fp(s, "extra", "combined", "extra-zero+push")
+		}
+		if c.N(0, 1) == 1 {
+			s := fileSpec(4, 1) // the realistic resize: written as member 1 of 2 (0..1), restarted as 1 of 1 (0..3)
+			delete(s.docs, 2)
+			delete(s.docs, 3)
+			s.push = true
+			fp(s, "subset", "several-missing", "resize-grow")
+			s = fileSpec(3, 1) // a missing vBucket AND an assigned one ahead: Load panics first
+			delete(s.docs, 0)
+			s.docs[2] = ckDoc{u: 1, s: s.high[2] + 1, ss: 1, se: s.high[2] + 1}
+			fp(s, "subset", "combined", "missing+assigned-ahead")
+			s = fileSpec(3, 1) // a missing vBucket AND an unassigned one ahead
+			delete(s.docs, 1)
+			s.docs[6] = ckDoc{u: 1, s: 2, ss: 1, se: 2}
+			fp(s, "subset", "extra", "combined", "missing+extra-positive")
+			s = fileSpec(3, 1) // a missing vBucket under a partial seqno answer that leaves a stored-0 vBucket out
+			delete(s.docs, 1)
+			s.docs[2] = ckDoc{u: 1}
+			s.seq = "partial:2"
+			fp(s, "subset", "combined", "missing+partial-seqnos")
+			s = fileSpec(3, 1) // a missing vBucket and a failed seqno query
+			delete(s.docs, 1)
+			s.seq = "err"
+			fp(s, "subset", "combined", "missing+seqno-error")
+			s = fileSpec(3, 1) // everything missing but vBucket 0 holds seqno 0; finite mode
+			s.docs = map[uint16]ckDoc{0: {u: 9}}
+			s.mode = "fin"
+			fp(s, "subset", "only-one-stored")
+			s = fileSpec(2, 3) // member 1 of 3: 0..1 of 0..5; the partial answer leaves an unassigned stored vBucket out
+			s.docs[4] = ckDoc{u: s.flog[4], s: 1, ss: 1, se: 9}
+			s.seq = "partial:4"
+			fp(s, "extra", "combined", "extra-inside+partial-seqnos")
+			s = fileSpec(2, 2) // unassigned stored vBucket exactly AT its high seqno: not ahead
+			s.docs[3] = ckDoc{u: s.flog[3], s: s.high[3], ss: 1, se: s.high[3]}
+			fp(s, "extra", "extra-equal-inside-node")
+			s = fileSpec(3, 1) // the largest vBucket id a file can name
+			s.docs[65535] = ckDoc{u: 2}
+			fp(s, "extra", "extra-zero-beyond-node")
+			s = fileSpec(3, 1) // a missing vBucket, unknown membership: the type switch comes first
+			delete(s.docs, 1)
+			s.memb = "weird"
+			fp(s, "subset", "combined", "missing+membership-type")
+		}
+		for i := 0; i < c.N(0, 60); i++ {
+			members := 1 + r.Intn(3)
+			s := fileSpec(r.Range(1, 4), members)
+			s.mode, s.push = r.Pick("inf", "fin"), r.Bool()
+			s.reset = r.Pick("earliest", "latest")
+			tags := []string{"random"}
+			for vb := 0; vb < s.n; vb++ {
+				if r.Chance(30) {
+					delete(s.docs, uint16(vb))
+				}
+			}
+			for k := r.Intn(3); k > 0; k-- { // entries outside the assignment: inside the node, just beyond it, far away
+				vb := uint16(s.n + r.Intn(s.n*members+3))
+				h := s.high[vb] // 0 beyond the node
+				sv := uint64(0)
+				if r.Chance(50) {
+					sv = uint64(r.Intn(int(h) + 2))
+				}
+				s.docs[vb] = ckDoc{u: ckVal(r), s: sv, ss: 0, se: sv + 1}
+			}
+			if len(s.docs) == 0 { // that would be "no file": keep the family on the file path
+				s.docs[uint16(s.n)] = ckDoc{u: 3}
+			}
+			if r.Chance(15) {
+				s.openErr[uint16(r.Intn(s.n))] = true
+				s.push = false
+			}
+			fp(s, tags...)
 		}
 	}
 	type res struct {
